@@ -155,6 +155,23 @@ fn jwk_from_json(v: serde_json::Value) -> Jwk {
   serde_json::from_value(v).expect("harness JWK deserialises")
 }
 
+/// BBS+ (BLS12381-SHA256) verification by the harness: zkryptium directly, own base64url decoding of the coordinates.
+fn bbs_verify(public_jwk: &Jwk, messages: &[Vec<u8>], header: &[u8], sig: &[u8]) -> bool {
+  use zkryptium::bbsplus::keys::BBSplusPublicKey;
+  use zkryptium::schemes::algorithms::BBSplus;
+  use zkryptium::bbsplus::ciphersuites::Bls12381Sha256;
+  use zkryptium::schemes::generics::Signature;
+  let v = serde_json::to_value(public_jwk).unwrap_or_default();
+  let coord = |n: &str| -> Option<[u8; 96]> {
+    v.get(n).and_then(|x| x.as_str()).and_then(crate::engines::world::b64url_decode).and_then(|b| <[u8; 96]>::try_from(b.as_slice()).ok())
+  };
+  let (Some(x), Some(y)) = (coord("x"), coord("y")) else { return false };
+  let Ok(pk) = BBSplusPublicKey::from_coordinates(&x, &y) else { return false };
+  let Ok(sig80) = <[u8; 80]>::try_from(sig) else { return false };
+  let Ok(signature) = Signature::<BBSplus<Bls12381Sha256>>::from_bytes(&sig80) else { return false };
+  signature.verify(&pk, Some(messages), Some(header)).is_ok()
+}
+
 /// Ed25519 verification by the harness (iota-crypto directly, own strict base64url), not through the library's verifier.
 pub fn verify_ed25519(public_jwk: &Jwk, data: &[u8], sig: &[u8]) -> bool {
   let x = serde_json::to_value(public_jwk).ok().and_then(|v| v.get("x").and_then(|x| x.as_str().map(str::to_owned)));
@@ -208,6 +225,8 @@ enum Op {
   GenerateBbs,
   /// `sign` (the EdDSA entry point) for the key id of a BBS+ key, with the public JWK of an Ed25519 key
   SignWithBbsKeyId,
+  /// `sign_bbs` for a BBS+ key id, with that key's public JWK or the public JWK of ANOTHER stored BBS+ key
+  SignBbs { other_public: bool },
 }
 
 #[derive(Clone, Debug)]
@@ -253,6 +272,7 @@ struct Shared {
   aliases: RefCell<BTreeMap<String, String>>,
   /// key ids of BBS+ keys in the store
   bbs_pool: RefCell<Vec<String>>,
+  bbs_publics: RefCell<BTreeMap<String, Jwk>>,
 }
 
 impl Shared {
@@ -615,10 +635,48 @@ async fn run_op(sh: &Shared, client: usize, op: Op) {
             ctx::violation("C15", "C15.generate_fresh_key_id", "generate_bbs/key-id-reused", format!("generate_bbs returned key id {id} which was issued before"));
           }
           sh.bbs_pool.borrow_mut().push(id.clone());
+          sh.bbs_publics.borrow_mut().insert(id.clone(), out.jwk.clone());
           ctx::stat("probe.bbs_key_generated");
           Ret::Created(id)
         }
         Err(e) => Ret::Err(format!("{:?}", e.kind())),
+      };
+    }
+    Op::SignBbs { other_public } => {
+      kind = "sign_bbs";
+      use identity_storage::JwkStorageBbsPlusExt;
+      let pool = sh.bbs_pool.borrow().clone();
+      result = if pool.is_empty() {
+        Ret::Refused
+      } else {
+        let id = pool[ctx::choose(pool.len())].clone();
+        let own_pk = sh.bbs_publics.borrow().get(&id).cloned();
+        let arg_id = if other_public && pool.len() > 1 { pool.iter().find(|o| **o != id).cloned().unwrap() } else { id.clone() };
+        let arg_pk = sh.bbs_publics.borrow().get(&arg_id).cloned();
+        match (own_pk, arg_pk) {
+          (Some(own_pk), Some(arg_pk)) => {
+            arg = format!("{id} with the public key of {arg_id}");
+            let data: Vec<Vec<u8>> = (0..1 + ctx::choose(3)).map(|_| ctx::bytes(8)).collect();
+            let header = ctx::bytes(6);
+            match sh.jwk.sign_bbs(&KeyId::new(id.clone()), &data, &header, &arg_pk).await {
+              Ok(sig) => {
+                ctx::stat("probe.sign_bbs_ok");
+                // a signature made for a stored key id verifies under THAT key's public JWK, whatever the caller passed
+                if !bbs_verify(&own_pk, &data, &header, &sig) {
+                  ctx::violation(
+                    "C15",
+                    "C15.signature_verifies_under_own_key",
+                    if arg_id == id { "sign_bbs/does-not-verify" } else { "sign_bbs/other-public-key-passed/does-not-verify-under-own-key" },
+                    format!("the BBS+ signature returned for key id {id} (public key argument: that of {arg_id}) does not verify under the public JWK of {id}"),
+                  );
+                }
+                Ret::Signed
+              }
+              Err(e) => Ret::Err(format!("{:?}", e.kind())),
+            }
+          }
+          _ => Ret::Refused,
+        }
       };
     }
     Op::SignWithBbsKeyId => {
@@ -806,7 +864,11 @@ fn draw_slot(n_slots: usize) -> usize {
 fn gen_op(n_slots: usize, n_digests: usize, invalid_bias: u32) -> Op {
   // one operation in forty concerns the store's BBS+ keys
   if ctx::chance(1, 40) {
-    return if ctx::choose(2) == 0 { Op::GenerateBbs } else { Op::SignWithBbsKeyId };
+    return match ctx::choose(4) {
+      0 | 1 => Op::GenerateBbs,
+      2 => Op::SignWithBbsKeyId,
+      _ => Op::SignBbs { other_public: ctx::choose(2) == 0 },
+    };
   }
   match ctx::weighted(&[5, 3, 6, 4, 3, 5, 4, 3]) {
     0 => {
@@ -1009,6 +1071,7 @@ impl Engine for KsEngine {
       production_ids,
       aliases: RefCell::new(BTreeMap::new()),
       bbs_pool: RefCell::new(Vec::new()),
+      bbs_publics: RefCell::new(BTreeMap::new()),
     };
 
     // ---- scripts ----
